@@ -253,6 +253,14 @@ def f1_h1(ctx, mod, cls, elem):
     for lst, spec in ((free, "not constrained"), (fixed, "constrained")):
         apps = [c for c in au.calls(fn) if au.call_tail(c) == "append" and isinstance(c.func, ast.Attribute) and H.is_name(c.func.value, lst) and len(c.args) == 1]
         d = S.value(lst, au.enclosing_stmt(c0))
+        other_refs = [n for n in au.walk(fn) if isinstance(n, ast.Name) and n.id == lst and isinstance(n.ctx, ast.Load)
+                      and not isinstance(au.parent(n), (ast.Subscript, ast.Tuple, ast.Assign))
+                      and not (isinstance(au.parent(n), ast.Call) and au.call_tail(au.parent(n)) == "len")
+                      and not (isinstance(au.parent(n), ast.Slice))]
+        if not apps and d is not None and H.is_empty_container(d) == "list" and other_refs:
+            ctx.undecided("C18-F1", site, f"{cls}.optimize: the filling of the {'free' if lst == free else 'fixed'} index list is not recognised", "")
+            part_ok = False
+            continue
         if not apps and d is not None and H.is_empty_container(d) == "list":
             ctx.fail("C18-F1", s0site, f"{cls}.optimize: the {'free' if lst == free else 'fixed'} index list is never filled",
                      "constrained elements must be kept out of the unknowns and every other element solved for")
@@ -313,7 +321,7 @@ def f1_h1(ctx, mod, cls, elem):
         adef = S.value(A, au.enclosing_stmt(c0)) if A else None
         fresh = (isinstance(adef, ast.Call) and au.call_tail(adef) in ("create_attribute", "Attribute", "zeros", "dict", "defaultdict")) \
             or (adef is not None and H.is_empty_container(adef) in ("set", "dict", "attr"))
-        sides, bad, unknown, wrong_dom, wrong_guard = set(), [], [], [], []
+        sides, bad, unknown, wrong_dom, wrong_guard, one_of_two = set(), [], [], [], [], []
         mark_sites = [(st, tgt, val) for st, tgt, val in H.subscript_stores(fn, lambda q: H.is_name(q, A))]
         for c in au.calls(fn):
             if au.call_tail(c) == "add" and isinstance(c.func, ast.Attribute) and H.is_name(c.func.value, A) and len(c.args) == 1:
@@ -355,6 +363,8 @@ def f1_h1(ctx, mod, cls, elem):
                 sides.add(1)
             elif (key == F1 and guards_not_none((F2,))) or (key == F2 and guards_not_none((F1,))):
                 wrong_guard.append(st)
+            elif not inner and {au.src(l) for _, l in hj_scope.ifexp_leaves(S.canon(tgt.slice, st))} == {F1, F2}:
+                one_of_two.append(st)
             elif len(inner) == 1 and isinstance(inner[0].target, ast.Name) and key == inner[0].target.id:
                 ic = S.canon(inner[0].iter, inner[0])
                 if isinstance(ic, ast.Call) and au.call_tail(ic) == "edge_to_faces" and {au.src(z) for z in ic.args} == {E0, E1} \
@@ -370,6 +380,9 @@ def f1_h1(ctx, mod, cls, elem):
             ctx.fail("C18-F1", msite, f"{cls}.optimize: `fixed` does not mark exactly the faces on both sides of every feature edge",
                      f"the marks are set in a loop over `{wrong_dom[0]}` instead of self.feat.feature_edges: every face adjacent to a border / feature edge "
                      "carries a constraint and must be kept fixed")
+        elif one_of_two and not sides:
+            ctx.fail("C18-F1", ctx.site(mod, fn0, one_of_two[0]), f"{cls}.optimize: `fixed` does not mark exactly the faces on both sides of every feature edge",
+                     "one face is chosen per feature edge (the direct one, the other one only when it is missing): an interior feature edge constrains both of its faces")
         elif wrong_guard:
             ctx.fail("C18-F1", ctx.site(mod, fn0, wrong_guard[0]), f"{cls}.optimize: `fixed` does not mark exactly the faces on both sides of every feature edge",
                      "a face is marked under the `is not None` test of the face on the other side of the edge")
@@ -660,7 +673,35 @@ def _pairing(ctx, mod, qual):
                   note=f"{qual}: tr[(a,b)] = -tr[(b,a)]")
 
 
+def _face_transport_convention(ctx):
+    """transport(T1, T2) = (angle of the common edge in the basis of T1) - (its angle in the basis of T2)"""
+    qual = "SurfaceConnectionFaces._initialize"
+    fn0 = ctx.repo.func(CONN, qual)
+    fn, S, nz = H.norm_fn(ctx, CONN, qual, unroll=False)
+    for st in au.stmts(fn.body):
+        if not (isinstance(st, ast.Assign) and len(st.targets) == 1 and _tr_key(st.targets[0])):
+            continue
+        kx, ky = st.targets[0].slice.elts
+        if not (isinstance(kx, ast.Name) and isinstance(ky, ast.Name)):
+            continue
+        v = S.canon(st.value, st, keep=(kx.id, ky.id))
+        if not (isinstance(v, ast.BinOp) and isinstance(v.op, ast.Sub)):
+            continue
+        ln, rn = au.names(v.left), au.names(v.right)
+        only = lambda names, a, b: a in names and b not in names
+        if not all(isinstance(side, ast.Call) and au.call_tail(side) in ("atan2", "arctan2", "_angle_in_basis", "phase") or isinstance(side, ast.Call)
+                   for side in (v.left, v.right)):
+            continue
+        if only(ln, kx.id, ky.id) and only(rn, ky.id, kx.id):
+            ctx.ok("C18-P1", ctx.site(CONN, fn0, st), "face transport (T1,T2) = angle in T1 - angle in T2")
+        elif only(ln, ky.id, kx.id) and only(rn, kx.id, ky.id):
+            ctx.fail("C18-P1", ctx.site(CONN, fn0, st), f"{qual}: the transport stored for (T1, T2) is the angle in the basis of T2 minus the angle in the basis of T1",
+                     "the sign convention of the parallel transport is reversed: transport(T1, T2) is the rotation that brings the basis of T1 onto "
+                     "the basis of T2 along their common edge, the Laplacians and the singularity count rely on that orientation")
+
+
 def p1_transport(ctx):
+    H.guarded(ctx, "C18-P1", CONN, "SurfaceConnectionFaces._initialize", _face_transport_convention)
     _pairing(ctx, CONN, "SurfaceConnectionFaces._initialize")
     _pairing(ctx, CONN, "SurfaceConnectionEdges._initialize")
     _pairing(ctx, VERTS, "FrameField2DVertices._modify_parallel_transport")
@@ -692,9 +733,9 @@ def _even_exponent(e):
     return all(c.denominator == 1 and int(c) % 2 == 0 for c in p.t.values()) and not any(a.startswith(("1/(", "<")) for a in p.atoms())
 
 
-def _evenness_guarded(node, expo, fn):
+def _evenness_guarded(node, expo, fn, S=None):
     """the path condition of `node` implies that `expo` is even"""
-    want = au.src(expo)
+    want = au.src(S.canon(expo, node) if S is not None else expo)
 
     def atom(x, boolean):
         if isinstance(x, ast.Compare) and len(x.ops) == 1 and isinstance(x.ops[0], (ast.Eq, ast.NotEq)) \
@@ -707,7 +748,8 @@ def _evenness_guarded(node, expo, fn):
             return H.name("odd")
         return None
     ab = H.Abstractor(atom)
-    code = ab.boolean(H.conj([(t, p) for t, p, _ in H.path_condition(node, stop=fn)]))
+    conds = S.conds(node, stop=fn) if S is not None else [(t, p) for t, p, _ in H.path_condition(node, stop=fn)]
+    code = ab.boolean(H.conj(conds))
     try:
         wit, _ = H.compare(ast.BoolOp(op=ast.And(), values=[code, H.name("odd")]), "False")
     except order.Unsupported:
@@ -796,8 +838,9 @@ def e1_even_power(ctx):
             if id(pw) in seen:
                 continue
             seen.add(id(pw))
-            ok = _even_exponent(pw.right) or _evenness_guarded(pw, pw.right, fn)
-            if not ok and not isinstance(pw.right, (ast.Constant, ast.Attribute, ast.Name)):
+            expo_c = S.canon(pw.right, pw)
+            ok = _even_exponent(expo_c) or _evenness_guarded(pw, pw.right, fn, S)
+            if not ok and not isinstance(expo_c, (ast.Constant, ast.Attribute)):
                 ctx.undecided("C18-E1", ctx.site(mod, fn0, pw), f"{qual}: the exponent applied to the direction of a stored edge is not recognised", "")
                 continue
             ctx.check(ok, "C18-E1", ctx.site(mod, fn0, pw),
@@ -1247,7 +1290,14 @@ def s1_fresh_singularities(ctx):
     for mod, qual in ((FACES, "_BaseFrameField2DFaces.flag_singularities"),):
         fn0 = ctx.repo.func(mod, qual)
         site = ctx.site(mod, fn0)
-        fn, S, nz = H.norm_fn(ctx, mod, qual, unroll=False)
+        # helpers of the package that fetch / create attributes are expanded even when they are public functions of another module
+        extra = set()
+        for c in au.calls(fn0):
+            if isinstance(c.func, ast.Name):
+                r = ctx.repo.resolve_func(mod, c.func.id)
+                if r and r[1] is not None and any(au.call_tail(c2) in ("create_attribute", "get_attribute") for c2 in au.calls(r[1])):
+                    extra.add(c.func.id)
+        fn, S, nz = H.norm_fn(ctx, mod, qual, unroll=False, extra=tuple(sorted(extra)))
         seen = set()
         n = 0
         for st, tgt, val in H.subscript_stores(fn, lambda x: isinstance(x, ast.Name)):
@@ -1333,3 +1383,22 @@ def i1_index_truth(ctx):
             n += 1
             ctx.ok("C18-I1", ctx.site(modname, fn), "no element index tested for truth") if False else None
     ctx.ok("C18-I1", ctx.site(CONN, "SurfaceConnectionVertices._initialize"), f"{n} functions of the connection / frame-field modules: no element index tested for truth")
+
+
+
+# ----------------------------------------------------------------------- generic families (msa/rules/generic.py)
+_run_specific = run
+
+
+def run(ctx):
+    _run_specific(ctx)
+    from ..rules import generic
+    generic.apply(ctx, "C18", stale_modules=())
+
+
+def _generic_rule_texts():
+    from ..rules import generic
+    return generic.rule_texts("C18", stale=False)
+
+
+RULES.update(_generic_rule_texts())
